@@ -180,6 +180,11 @@ impl C02 {
         deliver(&mut b, vec![TokFault::AadReplace { hex: String::new() }]);
         deliver(&mut b, vec![TokFault::AadReplace { hex: "00".into() }]);
         deliver(&mut b, vec![TokFault::AadReplace { hex: hex::encode(b"other assertion") }]);
+        // extension at the text level: further dot-separated segments
+        for seg in ["", "AAAA", "AA", "e30", ".", "AAAA.AAAA"] {
+            deliver(&mut b, vec![TokFault::TextExtraSegment { seg: seg.to_string() }]);
+            deliver(&mut b, vec![TokFault::TextTrailingDot, TokFault::TextExtraSegment { seg: seg.to_string() }]);
+        }
         // the trailing dot is *not* a corruption: must still be accepted when the footer is empty
         deliver(&mut b, vec![TokFault::TextTrailingDot]);
         b.finish()
@@ -307,7 +312,7 @@ impl C02 {
                 let nf = 1 + b.rng.usize_below(3);
                 let mut fk_over = Some(crate::backend::FootKind::Bytes);
                 for _ in 0..nf {
-                    match b.rng.below(22) {
+                    match b.rng.below(23) {
                         0..=3 => faults.push(TokFault::FlipPayload { byte: b.rng.usize_below(total.max(1)), bit: b.rng.below(8) as u8 }),
                         4 => faults.push(TokFault::FlipFooter { byte: b.rng.usize_below(foot_len.max(1)), bit: b.rng.below(8) as u8 }),
                         5 => faults.push(TokFault::TruncBack { keep: b.rng.usize_below(total.max(1)) }),
@@ -373,9 +378,13 @@ impl C02 {
                                 faults.push(TokFault::TruncMid { at, n })
                             }
                         }
-                        _ => {
+                        21 => {
                             fk_over = None;
                             faults.push(TokFault::TextTrailingDot)
+                        }
+                        _ => {
+                            let seg = b.rng.pick(&["", "AAAA", "AA", "e30", "x"]).to_string();
+                            faults.push(TokFault::TextExtraSegment { seg })
                         }
                     }
                 }
